@@ -276,8 +276,11 @@ def _history(F, ch, ctx, st):
                 dfo = io.BytesIO()
                 F.writer(dfo, schema, drecs, codec=dcodec, sync_interval=1 + ch.draw(40))
                 dbytes = dfo.getvalue()
-            blocks = list(F.block_reader(io.BytesIO(dbytes)))
-            expected = refavro.parse_container(dbytes)
+            try:
+                blocks = list(F.block_reader(io.BytesIO(dbytes)))
+                expected = refavro.parse_container(dbytes)
+            except Exception as e:  # noqa
+                raise Violation("donor", "donor-file-unreadable", detail={"exc": jsonable(e), "donor_codec": dcodec, "ops": ops}, scenario=desc)
             bi = 0
             offs = 0
             for b in blocks:
